@@ -33,7 +33,8 @@ def unrelated_world(names, seed, k=3, nchrom=2):
         chroms.append({"name": f"chr{ci + 1}", "length": 60 + 40 * k + 60, "variants": [{"pos": 60 + 40 * i, "kind": "SNV", "len": 1} for i in range(k)]})
     world = {"seed": seed, "chroms": chroms, "samples": list(names), "haps": {}, "reads": []}
     for si, s in enumerate(names):
-        world["haps"][s] = {c["name"]: [[(i + si) % 2, 1 - (i + si) % 2] for i in range(k)] for c in chroms}
+        # a different pair of haplotypes per sample (hap 0 of sample si spells si + 1 in binary)
+        world["haps"][s] = {c["name"]: [[((si + 1) >> (k - 1 - i)) & 1, 1 - (((si + 1) >> (k - 1 - i)) & 1)] for i in range(k)] for c in chroms}
         for c in chroms:
             for h in (0, 1):
                 world["reads"].append({"sample": s, "chrom": c["name"], "hap": h, "segs": [[0, k - 1, 6, 6]], "n": 2})
@@ -199,6 +200,7 @@ def scenarios(files, names):
         {"id": "polyphase", "cmd": "polyphase", "names": names, "args": {"inputs": [p["bam"]], "vcf": p["vcf"], "fasta": p["fasta"], "ploidy": 3}},
         {"id": "haplotag", "cmd": "haplotag", "names": names, "args": {"vcf": files["A_phased_gz"], "bam": a["bam"], "fasta": a["fasta"]}},
         {"id": "haplotag-regions", "cmd": "haplotag", "names": names, "chroms": chroms, "args": {"vcf": files["A_phased_gz"], "bam": a["bam"], "fasta": a["fasta"], "kw": {"regions": ["chr2", "chr1:1-150", "chr1:150-400"]}}},
+        {"id": "haplotag-irg-two-samples", "cmd": "haplotag", "names": names[:2], "args": {"vcf": files["A_phased_gz"], "bam": a["bam"], "fasta": a["fasta"], "kw": {"ignore_read_groups": True, "given_samples": list(names[:2])}}},
         {"id": "haplotag-linked", "cmd": "haplotag", "names": names, "args": {"vcf": files["L"]["vcf"], "bam": files["L"]["bam"], "fasta": files["L"]["fasta"]}},
         {"id": "haplotagphase", "cmd": "haplotagphase", "names": names, "args": {"vcf": files["A_unphased_gz"], "bam": files["A_tagged"], "fasta": a["fasta"]}},
         {"id": "compare-multiway", "cmd": "compare", "names": names, "args": {"vcfs": files["cmp"], "kw": {"ignore_sample_name": True}}},
